@@ -1110,7 +1110,14 @@ func unparsePipelinedCall(call b6.CallExpression, top bool) (string, bool) {
 	if !ok {
 		return "", false
 	}
-	rhs, ok := unparseCall(b6.CallExpression{Function: call.Function, Args: call.Args[1:]}, true)
+	var rhs string
+	if f, isCall := call.Function.AnyExpression.(b6.CallExpression); isCall && f.Pipelined && len(call.Args) == 1 {
+		// A pipeline on the right hand side needs its brackets, since
+		// a | (b | c) isn't (a | b) | c.
+		rhs, ok = unparseExpression(call.Function, false)
+	} else {
+		rhs, ok = unparseCall(b6.CallExpression{Function: call.Function, Args: call.Args[1:]}, true)
+	}
 	if !ok {
 		return "", false
 	}
